@@ -64,6 +64,26 @@ ADDENDA = {
            '  Byte-string examples with an encoding, an empty one among them.',
 }
 
+ADDENDA5 = {
+    'C01': '  Date-object columns with years 1 / 2500 / 9999; kind longtext (55-70 words over several lines).',
+    'C03': '  pdextract as entry point (every non-null value matched).',
+    'C04': '  A remove marker that begins with a blank; *.pdf-named references for file entries.',
+    'C05': '  Mutations catlist (an unused category on one side: pass) and catnull (null against the last label: fail); pd.NA nulls in object columns (found and repaired D36).',
+    'C07': '  Discovered bounds of rich frames must be attained by a record; a string pool whose values end in blanks.',
+    'C08': '  Integers beyond 2^53 in SQLite tables; U+2028 / U+2029 / U+0085 in text values.',
+    'C09': '  File names rewritten by every case and cycle; hand-written bounds needing 16-17 digits with data exactly on the bound.',
+    'C10': '  Focused histories check / regenerate (same size) / check new / check old without ageing of files.',
+    'C11': "  Logs stamped with today's date; form feed, lone CR, CR LF, U+2028, NEL, FS inside output lines.  Known finding D37 (control characters make an output binary at generation).", 'C12': '  An output written with an old modification time; a plain line altered into a line that mentions the machine.',
+    'C13': '  Two shapes sharing a constant where the shorter one ends; words with $.',
+    'C14': '  rexpy_streams called twice with the same list.',
+    'C15': '  List-of-files entry whose first pair uses an exclusion and whose second fails plainly.',
+    'C17': '  NA / null / None as string values (object dtype); detect twice on one output path (failing data, then clean data).',
+    'C18': '  ~110 distinct examples with default sizes (no sampling below the documented thresholds).',
+    'C19': '  unittest -k PATTERN next to tdda flags.',
+}
+for _k, _v in ADDENDA5.items():
+    ADDENDA[_k] = ADDENDA.get(_k, '') + _v
+
 
 def register(claim):
     claim('C10',
